@@ -107,7 +107,7 @@ func Evolve(s *Schema, r *prng.Rand) *Evolved {
 			return nil
 		}
 		_ = ctx
-		names := []string{nm.fresh(true), nm.fresh(true), nm.fresh(true), nm.fresh(true), nm.fresh(true), nm.fresh(true), nm.fresh(true)}
+		names := []string{nm.fresh(true), nm.fresh(true), nm.fresh(true), nm.fresh(true), nm.fresh(true), nm.fresh(true), nm.fresh(true), nm.fresh(true), nm.fresh(true), nm.fresh(true)}
 		fn := []string{nm.fresh(false), nm.fresh(false), nm.fresh(false), nm.fresh(false)}
 		sn := []Field{sent(), sent(), sent(), sent(), sent(), sent()}
 		mkctx := func(inner func() *Def) []*Def {
@@ -118,6 +118,10 @@ func Evolve(s *Schema, r *prng.Rand) *Evolved {
 				Msg(names[3], MF(1, fn[3], m), Field{Name: sn[3].Name, Type: sn[3].Type, Index: 2}),
 				Un(names[4], Br(1, inner())),
 				St(names[6], F(fn[0], N(names[4])), sn[4]),
+				// the evolved message inside a struct that is itself nested and followed by data
+				St(names[7], F(fn[1], m), F(fn[2], P("byte"))),
+				St(names[8], F(fn[0], N(names[7])), sn[5]),
+				St(names[9], F(fn[3], A(N(names[7]))), sn[5]),
 			}
 		}
 		innerFields := func(s *Schema) func() *Def {
